@@ -14,7 +14,8 @@ RULE = ("hand-picked shapes {chain, gap, two bases, diamond} x placements of 0/1
         "multiple inheritance, gaps, non-DBC classes; distinct = canonical history; non-trivial = some class inherits a contract")
 PROJECTION = "(per step: creation outcome; per class: MRO, the three invariant lists, per member/accessor the precondition groups, snapshots, postconditions as contract ids)"
 ASSUMPTIONS = ["each function object appears in one class namespace", "members added to a class after its creation are not covered"]
-NEIGHBOURS = [{"from": "C18", "tags": ["hist"], "limit": 700, "why": "the effective contracts are enforced on real calls"},
+NEIGHBOURS = [{"from": "C17", "limit": 400, "tags": ["late-decoration-shapes", "shape"], "why": "what a member inherited stays what its bases declare when another member is decorated after its class exists"},
+              {"from": "C18", "tags": ["hist"], "limit": 700, "why": "the effective contracts are enforced on real calls"},
               {"from": "C13", "limit": 400, "why": "groups are tried in the same way on async callables"},
               {"from": "C03", "limit": 400, "why": "inherited invariants guard the members of derived classes"},
               {"from": "C18", "limit": 800, "why": "inherited invariants guard every public member of the class, wherever the member was defined"}]
